@@ -9,6 +9,7 @@ RULE = ("same hostile dimension-wise engine as C03 (d=1..4, start levels, versio
         "benefits and benefit_max are snapshotted, after it tiling / level agreement / binary-tree rule / coarsening identity "
         "/ lmax bound / margin selection / cursor state are asserted. distinct = hash of final (coordinate, level) sequences; "
         "non-trivial = >=1 rotation or >=1 lmax raise or a step in which the margin rule selected >=2 intervals")
+RULE += (" " + 'Margins also 0.0 and unset (documented default 0.9); the selection threshold is computed from the margin that was CONFIGURED, not from the value read back from the object.')
 REQUIRED = ["tiling", "shared_point_levels", "binary_tree_rule", "coarsening_identity", "lmax_bounds_depth",
             "selection_rule", "children_replace_parent", "container_cursors"]
 MIN_NONTRIVIAL = {"quick": 150, "thorough": 1500}
